@@ -1,4 +1,259 @@
-import VermouthModel.C15
+import VermouthProofs.C15
+/-!
+# C15 — elastic-network bonds are exactly the pairs meeting every stated criterion
+
+Property theorems about `C15.run`, the model of
+`vermouth.processors.apply_rubber_band.apply_rubber_band`.
+
+Vocabulary (all executable unless marked `Prop`):
+* `selection names atoms` : node indices of the selected atoms (node order);
+* `network atoms edges p` : the bonds emitted when every selected atom has coordinates;
+* `Criteria atoms edges p i j` (`Prop`) : the five criteria of the property for node indices `i`, `j`
+  (both selected, same domain, residues further apart than the separation, squared distance within
+  the squared cut-off, capped decayed constant above the minimum force);
+* `resConnected E c a b` : bounded BFS on the residue graph; `IsWalk E a l b` (`Prop`) a walk with `l.length` steps;
+* `kOf p d2` : base constant × decay for squared distance `d2` (input table; the base constant by default);
+* `len5Of d2` : `round(sqrt(d2)/256 nm, 5)` in units of 1e-5 nm (ties to even, as numpy).
+-/
 namespace C15
-theorem placeholder : True := trivial
+
+def network (atoms : List Atom) (edges : List (Int × Int)) (p : Params) : List Bond :=
+  emit atoms p (mats atoms edges p)
+
+def KeysNodup (atoms : List Atom) : Prop := (atoms.map (·.key)).Nodup
+
+instance (atoms : List Atom) : Decidable (KeysNodup atoms) := by unfold KeysNodup; infer_instance
+
+/-! ## what `run` returns -/
+
+/-- Selected atoms without coordinates: the code raises (not part of the property, kept for completeness). -/
+theorem run_error_iff (atoms : List Atom) (edges : List (Int × Int)) (p : Params) :
+    (∃ ks, run atoms edges p = .error ks) ↔
+      ∃ i ∈ selection p.names atoms, (atomAt atoms i).pos = Pos.missing := by
+  unfold run
+  simp only []
+  split
+  · next h =>
+    simp only [Outcome.error.injEq, exists_eq', true_iff]
+    have : ((selection p.names atoms).map (atomAt atoms)).filter (fun a => a.pos = Pos.missing) ≠ [] := by
+      intro h'; apply h; rw [h']; rfl
+    obtain ⟨a, ha⟩ := List.exists_mem_of_ne_nil _ this
+    simp only [List.mem_filter, List.mem_map, decide_eq_true_eq] at ha
+    obtain ⟨⟨i, hi, rfl⟩, hm⟩ := ha
+    exact ⟨i, hi, hm⟩
+  · next h =>
+    have hnil : ((selection p.names atoms).map (atomAt atoms)).filter (fun a => a.pos = Pos.missing) = [] := by
+      simpa using h
+    constructor
+    · rintro ⟨ks, hk⟩; split at hk <;> (try split at hk) <;> cases hk
+    · rintro ⟨i, hi, hm⟩
+      exfalso
+      have : atomAt atoms i ∈ ((selection p.names atoms).map (atomAt atoms)).filter (fun a => a.pos = Pos.missing) := by
+        simp only [List.mem_filter, List.mem_map, decide_eq_true_eq]
+        exact ⟨⟨i, hi, rfl⟩, hm⟩
+      rw [hnil] at this; cases this
+
+theorem no_missing (atoms : List Atom) (p : Params)
+    (h : ∀ i ∈ selection p.names atoms, (atomAt atoms i).pos ≠ Pos.missing) :
+    ((((selection p.names atoms).map (atomAt atoms)).filter fun a => a.pos = Pos.missing).map (·.key)) = [] := by
+  simp only [List.map_eq_nil_iff, List.filter_eq_nil_iff, List.mem_map, decide_eq_true_eq]
+  rintro a ⟨i, hi, rfl⟩
+  exact h i hi
+
+/-- **NaN coordinates**: if no selected atom lacks coordinates and some selected atom has a NaN
+coordinate, the result is "warning, no network" (never an error, never a bond), whatever the
+other atoms, the edges and the parameters are. -/
+theorem nan_no_network (atoms : List Atom) (edges : List (Int × Int)) (p : Params)
+    (hm : ∀ i ∈ selection p.names atoms, (atomAt atoms i).pos ≠ Pos.missing)
+    (hn : ∃ i ∈ selection p.names atoms, (atomAt atoms i).pos = Pos.nan) :
+    run atoms edges p = .nanWarning := by
+  obtain ⟨i, hi, hnan⟩ := hn
+  unfold run
+  simp only [no_missing atoms p hm, ne_eq, not_true_eq_false, if_false]
+  have hne : (selection p.names atoms).map (atomAt atoms) ≠ [] := by
+    intro h; rw [List.map_eq_nil_iff] at h; rw [h] at hi; cases hi
+  rw [if_neg hne, if_pos]
+  simp only [List.any_eq_true, List.mem_map, decide_eq_true_eq]
+  exact ⟨atomAt atoms i, ⟨i, hi, rfl⟩, hnan⟩
+
+/-- NaN or missing coordinates of UNSELECTED atoms are irrelevant; with coordinates on every selected
+atom the result is the network. -/
+theorem run_bonds (atoms : List Atom) (edges : List (Int × Int)) (p : Params)
+    (hne : selection p.names atoms ≠ [])
+    (hpos : ∀ i ∈ selection p.names atoms, ∃ x y z, (atomAt atoms i).pos = Pos.at x y z) :
+    run atoms edges p = .bonds (network atoms edges p) := by
+  unfold run network
+  have hm : ∀ i ∈ selection p.names atoms, (atomAt atoms i).pos ≠ Pos.missing := by
+    intro i hi h; obtain ⟨x, y, z, e⟩ := hpos i hi; rw [e] at h; cases h
+  simp only [no_missing atoms p hm, ne_eq, not_true_eq_false, if_false]
+  rw [if_neg (by simpa using hne), if_neg]
+  simp only [List.any_eq_true, List.mem_map, decide_eq_true_eq, not_exists, not_and]
+  rintro a ⟨i, hi, rfl⟩ h
+  obtain ⟨x, y, z, e⟩ := hpos i hi; rw [e] at h; cases h
+
+theorem run_nothing (atoms : List Atom) (edges : List (Int × Int)) (p : Params)
+    (h : selection p.names atoms = []) : run atoms edges p = .nothing := by
+  unfold run; simp [h]
+
+/-! ## the bond set -/
+
+/-- **emit_iff.** For `minForce ≥ 0` and distinct node keys: a bond with atoms (key i, key j) is
+emitted iff `i` precedes `j` in node order and the pair meets all five criteria. -/
+theorem emit_iff (atoms : List Atom) (edges : List (Int × Int)) (p : Params)
+    (h0 : 0 ≤ p.minForce) (hk : KeysNodup atoms) (i j : Nat) (hi : i < atoms.length) (hj : j < atoms.length) :
+    (∃ b ∈ network atoms edges p, b.a = keyAt atoms i ∧ b.b = keyAt atoms j) ↔
+      i < j ∧ Criteria atoms edges p i j := by
+  unfold network
+  constructor
+  · rintro ⟨b, hb, ha, hbb⟩
+    obtain ⟨a, c, hac, hc, hgt, rfl⟩ := (mem_emit _ _ _ _).mp hb
+    have hc' : c < (selection p.names atoms).length := hc
+    have ha' : a < (selection p.names atoms).length := by omega
+    have e1 : (selection p.names atoms).getD a 0 = i :=
+      key_inj atoms hk _ _ (sel_getD_lt _ _ _ ha') hi ha
+    have e2 : (selection p.names atoms).getD c 0 = j :=
+      key_inj atoms hk _ _ (sel_getD_lt _ _ _ hc') hj hbb
+    have := (constEntry_gt_iff atoms edges p h0 a c hac hc').mp hgt
+    rw [e1, e2] at this
+    refine ⟨?_, this.2⟩
+    have := sorted_getD_lt (selection_sorted p.names atoms) this.1 hc'
+    omega
+  · rintro ⟨hij, hC⟩
+    have hsi : i ∈ selection p.names atoms := (mem_selection _ _ _).mpr ⟨hi, hC.1⟩
+    have hsj : j ∈ selection p.names atoms := (mem_selection _ _ _).mpr ⟨hj, hC.2.1⟩
+    obtain ⟨a, ha, ea⟩ := exists_index_of_mem hsi
+    obtain ⟨c, hc, ec⟩ := exists_index_of_mem hsj
+    have hac : a < c := sorted_index_lt (selection_sorted p.names atoms) ha hc (by omega)
+    have hgt := (constEntry_gt_iff atoms edges p h0 a c (by omega) hc).mpr ⟨hac, by rw [ea, ec]; exact hC⟩
+    refine ⟨mkBond atoms p (mats atoms edges p) (a, c), (mem_emit _ _ _ _).mpr ⟨a, c, by omega, hc, hgt, rfl⟩, ?_, ?_⟩
+    · show keyAt atoms ((selection p.names atoms).getD a 0) = _; rw [ea]
+    · show keyAt atoms ((selection p.names atoms).getD c 0) = _; rw [ec]
+
+/-- **emit_keys_correct.** Every emitted bond comes from one cell (a, c), a ≤ c, of the upper triangle
+of the sub-selection matrices; its atoms are the node keys of `selection[a]` and `selection[c]`
+(both selected nodes of the molecule), and the decision that emitted it was taken on the values of
+the FULL matrices at (`selection[a]`, `selection[c]`) — not at (a, c). -/
+theorem emit_keys_correct (atoms : List Atom) (edges : List (Int × Int)) (p : Params) (b : Bond)
+    (hb : b ∈ network atoms edges p) :
+    ∃ a c, a ≤ c ∧ c < (selection p.names atoms).length ∧
+      let i := (selection p.names atoms).getD a 0
+      let j := (selection p.names atoms).getD c 0
+      i < atoms.length ∧ j < atoms.length ∧
+      selected p.names (atomAt atoms i) = true ∧ selected p.names (atomAt atoms j) = true ∧
+      b.a = keyAt atoms i ∧ b.b = keyAt atoms j ∧
+      b.k = (if linkOK atoms edges p i j then forceConst p (a == c) (dist2 (posAt atoms i) (posAt atoms j)) else 0) ∧
+      p.minForce < b.k := by
+  obtain ⟨a, c, hac, hc, hgt, rfl⟩ := (mem_emit _ _ _ _).mp hb
+  have hc' : c < (selection p.names atoms).length := hc
+  have ha' : a < (selection p.names atoms).length := by omega
+  refine ⟨a, c, hac, hc', sel_getD_lt _ _ _ ha', sel_getD_lt _ _ _ hc', sel_getD_selected _ _ _ ha',
+    sel_getD_selected _ _ _ hc', rfl, rfl, ?_, hgt⟩
+  exact constEntry_eq atoms edges p a c ha' hc'
+
+/-- The sub-selection slicing itself: `M[:, sel][sel][a, c] = M[sel[a], sel[c]]`. -/
+theorem subselection_index {α} (M : List (List α)) (sel : List Nat) (d : α) (a c : Nat)
+    (ha : a < sel.length) (hc : c < sel.length) :
+    mget (subMatrix M sel d) a c d = mget M (sel.getD a 0) (sel.getD c 0) d :=
+  mget_subMatrix M sel d a c ha hc
+
+/-- **emit_once.** For `minForce ≥ 0` and distinct node keys no ordered key pair is emitted twice, and
+no pair is emitted in both orientations (in particular there is no self-bond). -/
+theorem emit_once (atoms : List Atom) (edges : List (Int × Int)) (p : Params)
+    (h0 : 0 ≤ p.minForce) (hk : KeysNodup atoms) :
+    ((network atoms edges p).map fun b => (b.a, b.b)).Nodup ∧
+    ∀ b ∈ network atoms edges p, ∀ b' ∈ network atoms edges p, ¬ (b.a = b'.b ∧ b.b = b'.a) := by
+  have hinj : ∀ a c a' c', a ≤ c → c < (selection p.names atoms).length → a' ≤ c' →
+      c' < (selection p.names atoms).length →
+      keyAt atoms ((selection p.names atoms).getD a 0) = keyAt atoms ((selection p.names atoms).getD a' 0) →
+      a = a' := by
+    intro a c a' c' hac hc hac' hc' e
+    have ha : a < (selection p.names atoms).length := by omega
+    have ha' : a' < (selection p.names atoms).length := by omega
+    exact nodup_getD_inj (selection_nodup _ _) ha ha'
+      (key_inj atoms hk _ _ (sel_getD_lt _ _ _ ha) (sel_getD_lt _ _ _ ha') e)
+  constructor
+  · unfold network
+    rw [emit_eq, List.map_map]
+    refine List.Nodup.map_on ?_ (List.Nodup.filter _ (triu_nodup _))
+    rintro ⟨a, c⟩ h1 ⟨a', c'⟩ h2 e
+    simp only [List.mem_filter, mem_triu] at h1 h2
+    simp only [Function.comp, mkBond, Prod.mk.injEq] at e
+    have hc : c < (selection p.names atoms).length := h1.1.2
+    have hc' : c' < (selection p.names atoms).length := h2.1.2
+    have e1 := hinj a c a' c' h1.1.1 hc h2.1.1 hc' e.1
+    have e2 := hinj c c c' c' (Nat.le_refl _) hc (Nat.le_refl _) hc' e.2
+    rw [e1, e2]
+  · intro b hb b' hb' ⟨e1, e2⟩
+    unfold network at hb hb'
+    obtain ⟨a, c, hac, hc, hgt, rfl⟩ := (mem_emit _ _ _ _).mp hb
+    obtain ⟨a', c', hac', hc', hgt', rfl⟩ := (mem_emit _ _ _ _).mp hb'
+    have hc1 : c < (selection p.names atoms).length := hc
+    have hc1' : c' < (selection p.names atoms).length := hc'
+    have l1 := ((constEntry_gt_iff atoms edges p h0 a c hac hc1).mp hgt).1
+    have l2 := ((constEntry_gt_iff atoms edges p h0 a' c' hac' hc1').mp hgt').1
+    have x1 := hinj a c c' c' hac hc1 (Nat.le_refl _) hc1' e1
+    have x2 := hinj c c a' c' (Nat.le_refl _) hc1 hac' hc1' e2
+    omega
+
+/-- **length_is_distance.** The length of an emitted bond is the distance between the two nodes whose
+keys it carries: `d2` is their squared lattice distance and `len5` its square root in nm rounded to
+5 decimals (see `len5_spec`). -/
+theorem length_is_distance (atoms : List Atom) (edges : List (Int × Int)) (p : Params) (b : Bond)
+    (hb : b ∈ network atoms edges p) :
+    ∃ i j, i < atoms.length ∧ j < atoms.length ∧ b.a = keyAt atoms i ∧ b.b = keyAt atoms j ∧
+      b.d2 = dist2 (posAt atoms i) (posAt atoms j) ∧ b.len5 = len5Of b.d2 := by
+  obtain ⟨a, c, hac, hc, hgt, rfl⟩ := (mem_emit _ _ _ _).mp hb
+  have hc' : c < (selection p.names atoms).length := hc
+  have ha' : a < (selection p.names atoms).length := by omega
+  exact ⟨_, _, sel_getD_lt _ _ _ ha', sel_getD_lt _ _ _ hc', rfl, rfl, mget_dist atoms edges p a c ha' hc', rfl⟩
+
+/-- **force constant.** For `minForce ≥ 0` the constant of an emitted bond is the decayed constant of its
+distance capped at the base constant. -/
+theorem force_is_capped_decay (atoms : List Atom) (edges : List (Int × Int)) (p : Params)
+    (h0 : 0 ≤ p.minForce) (b : Bond) (hb : b ∈ network atoms edges p) :
+    b.k = min (kOf p b.d2) p.base ∧ b.k ≤ p.base ∧ p.minForce < b.k := by
+  obtain ⟨a, c, hac, hc, hgt, rfl⟩ := (mem_emit _ _ _ _).mp hb
+  have hc' : c < (selection p.names atoms).length := hc
+  have ha' : a < (selection p.names atoms).length := by omega
+  have hlt := ((constEntry_gt_iff atoms edges p h0 a c hac hc').mp hgt).1
+  have hne : (a == c) = false := by simp; omega
+  have hv : constEntry p (mats atoms edges p) a c
+      = min (kOf p (mget (mats atoms edges p).dist a c 0)) p.base := by
+    have h1 := hgt
+    rw [constEntry_eq _ _ _ _ _ ha' hc', hne] at h1 ⊢
+    rw [mget_dist _ _ _ _ _ ha' hc']
+    split at h1
+    · next hl => rw [if_pos hl]; exact forceConst_value p _ h0 h1
+    · exfalso; linarith
+  refine ⟨hv, ?_, hgt⟩
+  show constEntry p (mats atoms edges p) a c ≤ p.base
+  rw [hv]; exact min_le_right _ _
+
+/-! ## residue separation -/
+
+/-- **bfs_correct.** The bounded BFS answers "is there a walk of at most `c` steps in the residue graph". -/
+theorem bfs_correct (E : List (ResKey × ResKey)) (c : Nat) (a b : ResKey) :
+    resConnected E c a b = true ↔ ∃ l : List ResKey, l.length ≤ c ∧ IsWalk E a l b := by
+  unfold resConnected
+  rw [List.contains_iff_mem]
+  exact mem_ball E c a b
+
+/-- Edges of the residue graph: one for every atom edge whose ends lie in residues with different keys. -/
+theorem resEdges_spec (atoms : List Atom) (edges : List (Int × Int)) (ra rb : ResKey) :
+    (ra, rb) ∈ resEdges atoms edges ↔
+      ∃ e ∈ edges, ∃ a b, atomOfKey atoms e.1 = some a ∧ atomOfKey atoms e.2 = some b ∧
+        a.res = ra ∧ b.res = rb ∧ ra ≠ rb := by
+  unfold resEdges
+  simp only [List.mem_filterMap]
+  constructor
+  · rintro ⟨e, he, h⟩
+    split at h
+    · next a b ha hb =>
+      split at h
+      · cases h
+      · next hne => cases h; exact ⟨e, he, a, b, ha, hb, rfl, rfl, hne⟩
+    · cases h
+  · rintro ⟨e, he, a, b, ha, hb, rfl, rfl, hne⟩
+    exact ⟨e, he, by rw [ha, hb]; simp [hne]⟩
+
 end C15
